@@ -50,7 +50,7 @@ type KV struct {
 
 type Case struct {
 	ID     int               `json:"id"`
-	Kind   string            `json:"kind"` // "load" | "std" | "shape" | "bad"
+	Kind   string            `json:"kind"` // "load" | "std" | "shape" | "bad" | "mfmt" | "nulls" | "conc"
 	Type   []Field           `json:"type"`
 	Doc    Doc               `json:"doc"`
 	Doc2   *Doc              `json:"doc2"`
@@ -264,7 +264,7 @@ func toTOML(d *Doc, fl *floats) (any, error) {
 	return nil, fmt.Errorf("empty doc node")
 }
 
-func render(d *Doc, jsonOnly bool) (map[string]string, error) {
+func render(d *Doc, jsonOnly bool, noToml ...bool) (map[string]string, error) {
 	res := map[string]string{}
 	var jb bytes.Buffer
 	if err := renderJSON(d, &jb); err != nil {
@@ -285,6 +285,9 @@ func render(d *Doc, jsonOnly bool) (map[string]string, error) {
 		return nil, fmt.Errorf("yaml: %v", err)
 	}
 	res["yaml"] = fy.subst(string(yb), false)
+	if len(noToml) > 0 && noToml[0] { // a document with nulls: TOML cannot write it
+		return res, nil
+	}
 
 	var ft floats
 	t, err := toTOML(d, &ft)
@@ -502,7 +505,7 @@ func runCase(c Case, dir string) (out Out) {
 	}
 	texts := c.Texts
 	if texts == nil {
-		if texts, err = render(&c.Doc, c.Kind == "std"); err != nil {
+		if texts, err = render(&c.Doc, c.Kind == "std", c.Kind == "nulls"); err != nil {
 			out.Fail = "render: " + err.Error()
 			return
 		}
@@ -522,6 +525,11 @@ func runCase(c Case, dir string) (out Out) {
 		m := run2(rt, func(t any) error { return mapping.UnmarshalJsonBytes(raw, t) })
 		s := run(rt, func(t any) error { return json.Unmarshal(raw, t) })
 		out.Map, out.Std = &m, &s
+	case "nulls": // a document with nulls (outside the three-format quantifier): the JSON and the YAML loader
+		out.Load = map[string]Res{
+			"json": run2(rt, func(t any) error { return conf.LoadFromJsonBytes([]byte(texts["json"]), t) }),
+			"yaml": run2(rt, func(t any) error { return conf.LoadFromYamlBytes([]byte(texts["yaml"]), t) }),
+		}
 	case "mfmt": // mapping's own format front ends (no conf layer: keys are matched exactly)
 		out.MBytes = map[string]Res{
 			"json": run2(rt, func(t any) error { return mapping.UnmarshalJsonBytes([]byte(texts["json"]), t) }),
